@@ -170,6 +170,13 @@ Definition holds_cb (c : cbpc) (j t : nat) : bool :=
   end.
 Definition holds (th : thread) (j t : nat) : bool := holds_main (main th) j t || holds_cb (cb th) j t.
 
+(** a join / tryjoin / timedjoin in progress on [t] (detach may target oneself, these may not) *)
+Definition join_pc (p : pc) (t : nat) : bool :=
+  match p with
+  | JLock x | JCheck x | JSusp x | JSpin x | JReap x | TLock x _ | TCheck x _ | TBusy x => x =? t
+  | _ => false
+  end.
+
 Definition started_pc (p : pc) : bool := match p with NoThread | Created _ => false | _ => true end.
 Definition finishing_pc (p : pc) : bool := match p with FLock | FReadJoin | Finished => true | _ => false end.
 Definition fin_cb (c : cbpc) : bool := match c with CbFreeStack | CbDetTest | CbFreeDesc | CbReady2 => true | _ => false end.
@@ -210,6 +217,12 @@ Record Inv (s : state) : Prop := mkInv {
   i_dreap : forall j t, main (gt s j) = DReap t -> status (gt s t) = ST_FREE_READY2;
   i_jt : forall t j, join_thread (gt s t) = Some j -> before_readjoin (gt s t) = true ->
            suspended_on (gt s j) t = true;
+  (* no lost wake-up: a joiner whose registering callback has run is registered with a target that has
+     not yet executed finish.readjoin; the callback itself runs against such a target *)
+  i_susp : forall j t, main (gt s j) = JSusp t -> cb (gt s j) = CbNone ->
+             join_thread (gt s t) = Some j /\ before_readjoin (gt s t) = true;
+  i_cbjs : forall j t, cb (gt s j) = CbJoinSet t -> before_readjoin (gt s t) = true;
+  i_noself : forall j, join_pc (main (gt s j)) j = false;
   (* the start function *)
   i_runs0 : forall k, started_pc (main (gt s k)) = false -> runs (gh (gt s k)) = 0 /\ got (gh (gt s k)) = None;
   i_runs1 : forall k, started_pc (main (gt s k)) = true ->
@@ -305,7 +318,7 @@ Ltac eqb_hyps :=
 Ltac simp :=
   unfold holds, status_spec, finish_complete, suspended_on, before_readjoin, stack_freed_spec, alloc_spec,
          ST_FREE_READY2, ST_READY, ST_BLOCKED, ST_FREE_READY in *;
-  cbn [reap_pc holds_main holds_cb started_pc finishing_pc fin_cb orb andb negb
+  cbn [reap_pc join_pc holds_main holds_cb started_pc finishing_pc fin_cb orb andb negb
        pc_is_nothread exists_thread opt_is_none In
        status join_thread detached lockh result main cb gh
        set_status set_jt set_detached set_lockh set_result set_main set_cb set_gh unlock new_thread
@@ -346,6 +359,7 @@ Ltac cleanup :=
          | H : ?x = ?x |- _ => clear H
          | H : ?p = ?q -> _ |- _ =>
              first [ is_constructor_pc p q; clear H ]
+         | H : Some ?a = Some ?b |- _ => first [ is_var a | is_var b ]; injection H as H; subst
          | H : _ /\ _ |- _ => destruct H
          | H : ?A -> _, H' : ?A |- _ => specialize (H H')
          end.
@@ -481,4 +495,15 @@ Lemma d_status_not3 s k : Inv s -> (main (gt s k) <> Finished \/ cb (gt s k) <> 
   status (gt s k) <> 3%Z.
 Proof.
   intros HI H E. destruct (d_status3 _ _ HI E) as (A & B & C). destruct H as [H|[H|H]]; congruence.
+Qed.
+
+(** a thread whose code is over: its callback is done, or it is the detached tail, or it holds its own lock *)
+Lemma d_fin_cases s k : Inv s -> main (gt s k) = Finished ->
+  cb (gt s k) = CbNone \/ cb (gt s k) = CbFreeDesc \/ lockh (gt s k) = Some k.
+Proof.
+  intros HI H. destruct (cb (gt s k)) eqn:E; auto.
+  - pose proof (i_cbmain _ HI k t E). congruence.
+  - right; right. apply (i_lock_b _ HI). unfold holds. rewrite H, E. cbn. now rewrite Nat.eqb_refl.
+  - right; right. apply (i_lock_b _ HI). unfold holds. rewrite H, E. cbn. now rewrite Nat.eqb_refl.
+  - right; right. apply (i_lock_b _ HI). unfold holds. rewrite H, E. cbn. now rewrite Nat.eqb_refl.
 Qed.
